@@ -15,11 +15,27 @@
   Statements only; proofs in Saltpack/Proofs/NoPanic.lean.
 -/
 import Saltpack.Proofs.NoPanic
+import Saltpack.Gen.Inventory
 import Saltpack.Model.Armor
 import Saltpack.Toy
 
 namespace Saltpack.Props.C15
 open Saltpack Saltpack.Proofs
+
+/-- **Panic-site inventory** (regenerated from /repo's source on every run): the
+    non-test functions containing an explicit `panic(`.  Receiving side, modelled
+    as `Err.panic` branches: `nonceForPayloadKeyBox`, `computePayloadHash`,
+    `computeMACKeyReceiver`, `attachedSignatureInput`, `checkChunkState`,
+    `readEncryptionBlock`/`readSignatureBlock` (major ∉ {1,2}: excluded by the
+    validator contract), `chunkReader.Read` (empty chunk without error: the three
+    `getNextChunk` never return it — C02/C04/C06 stream logic),
+    `IsSaltpackArmoredPrefix` (more than five words: excluded by its own regular
+    expression — Classify model), `trySharedSymmetricKeys` /
+    `derivedEphemeralKeyFromBoxKeys` / `makeReceiverKeys` (wrong slice length:
+    statically impossible, the slices are cut to 32 bytes), `copyEqualSize(Str)`
+    (constant lengths).  Sending side only: the rest.  A new site changes this
+    list and breaks this obligation before any input is needed. -/
+theorem C15_panic_inventory : Gen.panicFunctions = ["basic.Keyring.GenerateSigningKey", "sp.IsSaltpackArmoredPrefix", "sp.ReceiverSymmetricKey.makeReceiverKeys", "sp.assertEncodedChunkState", "sp.attachedSignatureInput", "sp.checkChunkState", "sp.checkEncryptBlockRead", "sp.checkSignBlockRead", "sp.checkSigncryptReceiverCount", "sp.chunkReader.Read", "sp.computeMACKeyReceiver", "sp.computeMACKeySender", "sp.computePayloadHash", "sp.copyEqualSize", "sp.copyEqualSizeStr", "sp.csprngShuffle", "sp.derivedEphemeralKeyFromBoxKeys", "sp.encryptStream.Close", "sp.makeEncryptionBlock", "sp.makeSignatureBlock", "sp.nonceForPayloadKeyBox", "sp.readEncryptionBlock", "sp.readSignatureBlock", "sp.signAttachedStream.Close", "sp.signcryptOpenStream.trySharedSymmetricKeys", "sp.signcryptSealStream.Close", "sp.signcryptSealStream.init", "sp.signcryptSealStream.signcryptBlock"] := rfl
 
 /-- the shipped validator satisfies the contract -/
 theorem C15_shipped_validator_ok : ValidatorOK knownMajor := knownMajor_ok
